@@ -97,6 +97,9 @@ EX = dict(llc.BITS_EXTRACTS,
     timeout=dict(file=LL, locate=T + r'void ' + Q + r'timeout\(\)', pre=PRE),
     end_event=dict(file=LL, locate=T + r'void ' + Q + r'end_event\( connection_event_events evts \)', pre=PRE),
     adv_received=dict(file=LL, locate=T + r'void ' + Q + r'adv_received\( const read_buffer& receive \)', pre=ADV_PRE),
+    api_phy=dict(file=LL, locate=T + r'bool ' + Q + r'phy_update_request\( std::uint8_t transmit, std::uint8_t receive \)', pre=PRE),
+    api_ver=dict(file=LL, locate=T + r'bool ' + Q + r'remote_versions_request\(\)', pre=PRE),
+    api_cpr=dict(file=LL, locate=T + r'bool ' + Q + r'initiating_connection_parameter_request\( std::uint16_t interval_min, std::uint16_t interval_max, std::uint16_t latency, std::uint16_t timeout \)', pre=PRE),
     disconnect=dict(file=LL, locate=T + r'void ' + Q + r'disconnect\( std::uint8_t reason \)', pre=PRE),
     tpc=dict(file=LL, locate=T + r'void ' + Q + r'transmit_pending_control_pdus\(\)', pre=PRE),
     received=dict(file=LL, locate=T + r'typename ' + Q + r'll_result ' + Q + r'handle_received_data\(\)', pre=RX_PRE, loops=[RX_LOOP],
@@ -194,8 +197,9 @@ void transmit_pending_control_pdus(struct ll* self)
 __CPROVER_requires(LL_OK(self))
 /* which request is due: connection parameter request, then PHY request, then version indication */
 #define DUE_CPR (W_alloc_ok && W_cpr_pending)
-#define DUE_PHY (W_alloc_ok && !W_cpr_pending && W_phy_pending)
-#define DUE_VER (W_alloc_ok && !W_cpr_pending && !W_phy_pending && W_ver_pending)
+/* a PHY request is sent only while no other procedure's response is outstanding (one time out for all procedures): otherwise it waits */
+#define DUE_PHY (W_alloc_ok && !W_cpr_pending && W_phy_pending && W_proc == 0)
+#define DUE_VER (W_alloc_ok && !W_cpr_pending && !(W_phy_pending && W_proc == 0) && W_ver_pending)
 #define SENDS (DUE_CPR || DUE_PHY || (DUE_VER && !W_version_sent))
 /* exactly one request per call */
 __CPROVER_ensures(SENDS ==> (G_o.commits == 1 && G_o.fills == 1 && G_o.tx[0] == ll_control_pdu_code && G_o.tx[2] == (DUE_CPR ? LL_CONNECTION_PARAM_REQ : DUE_PHY ? LL_PHY_REQ : LL_VERSION_IND)))
@@ -267,6 +271,26 @@ __CPROVER_ensures(ACCEPTED ==> (G_a.n == 8 && G_a.seq[0] == A_RESET_STATE && G_a
 __CPROVER_ensures(!ACCEPTED ==> (self->state_ == state_advertising && G_a.n == 0 && G_o.n == 0))
 __CPROVER_assigns(__CPROVER_object_whole(self), G_a, G_o)
 {{adv_received}}
+/* ---- the three requests of the application: one procedure at a time - a request is accepted only while none of its kind is waiting to be sent and no response is outstanding (C27: the one
+        response time out then belongs to one procedure) */
+bool ll_phy_update_request(struct ll* self, uint8_t transmit, uint8_t receive)
+__CPROVER_requires(LL_OK(self))
+__CPROVER_ensures(__CPROVER_return_value == (!W_phy_pending && W_proc == 0))
+__CPROVER_ensures(__CPROVER_return_value ? (self->phy_update_request_pending_ && self->phy_update_request_transmit_ == transmit && self->phy_update_request_receive_ == receive) : self->phy_update_request_pending_ == W_phy_pending)
+__CPROVER_ensures(self->procedure_timeout_ == W_proc)
+__CPROVER_assigns(__CPROVER_object_whole(self))
+{{api_phy}}
+bool ll_remote_versions_request(struct ll* self)
+__CPROVER_requires(LL_OK(self))
+__CPROVER_ensures(__CPROVER_return_value == (!W_ver_pending && W_proc == 0) && self->remote_versions_request_pending_ == (W_ver_pending || __CPROVER_return_value) && self->procedure_timeout_ == W_proc)
+__CPROVER_assigns(__CPROVER_object_whole(self))
+{{api_ver}}
+bool ll_initiating_connection_parameter_request(struct ll* self, uint16_t interval_min, uint16_t interval_max, uint16_t latency, uint16_t timeout)
+__CPROVER_requires(LL_OK(self))
+__CPROVER_ensures(__CPROVER_return_value == (!W_cpr_pending && W_proc == 0) && self->connection_parameters_request_pending_ == (W_cpr_pending || __CPROVER_return_value) && self->procedure_timeout_ == W_proc)
+__CPROVER_ensures(__CPROVER_return_value ==> (self->proposed_interval_min_ == interval_min && self->proposed_interval_max_ == interval_max && self->proposed_latency_ == latency && self->proposed_timeout_ == timeout))
+__CPROVER_assigns(__CPROVER_object_whole(self))
+{{api_cpr}}
 /* ---- disconnect( reason ): the local host ends the connection. The LL_TERMINATE_IND and whatever is waiting in the transmit buffer are still to be sent: */
 size_t G_enc_resets;
 static inline void ll_sync_disconnect(void) {} static inline void ll_reset_encryption(void) { ++G_enc_resets; }
@@ -339,6 +363,9 @@ __CPROVER_assigns(__CPROVER_object_whole(self), G_rx)
 void h_ll_timeout(void) { SETUP; ll_timeout(s); BT_CANARY(); }
 void h_ll_end_event(void) { SETUP; struct connection_event_events e; ll_end_event(s, e); BT_CANARY(); }
 void h_transmit_pending_control_pdus(void) { SETUP; transmit_pending_control_pdus(s); BT_CANARY(); }
+void h_ll_phy_update_request(void) { SETUP; ll_phy_update_request(s, nondet_u8(), nondet_u8()); BT_CANARY(); }
+void h_ll_remote_versions_request(void) { SETUP; ll_remote_versions_request(s); BT_CANARY(); }
+void h_ll_initiating_connection_parameter_request(void) { SETUP; ll_initiating_connection_parameter_request(s, nondet_u16(), nondet_u16(), nondet_u16(), nondet_u16()); BT_CANARY(); }
 void h_adv_received(void) { SETUP; struct rbuf* r; adv_received(s, r); BT_CANARY(); }
 void h_ll_disconnect(void) { SETUP; ll_disconnect(s, nondet_u8()); BT_CANARY(); }
 void h_handle_received_data(void) { SETUP; handle_received_data(s); BT_CANARY(); }
